@@ -1250,6 +1250,17 @@ pub fn exec_binary(w: &mut SessWorker, trace: &Value, res: &mut ExecResult) {
         }
     };
     res.bump("pty_sessions");
+    if r.output.contains("panicked at") {
+        // the real REPL died on a line that the in-process session survived (it does not render
+        // diagnostics): the two ways of running the same lines disagree
+        let at = r.output.lines().find(|l| l.contains("panicked at")).unwrap_or("").trim().to_string();
+        let tail: String = r.output.chars().rev().take(300).collect::<String>().chars().rev().collect();
+        res.fail(
+            "repl-binary-crash",
+            format!("the interactive numbat process crashed ({at}) while the same lines run to the end in-process; output tail: {tail:?}"),
+        );
+        return;
+    }
     if r.timed_out {
         res.harness_error = Some(format!(
             "pty REPL session timed out; output tail: {:?}",
